@@ -96,7 +96,9 @@ def check_function_contracts(rep):
     for g in SUPPORTED_GROUPINGS:
         for const in (True, False):
             log = []
-            key = ("all", ("eq", ("group_transform", f"x_{g}", f"{g}_id", "max"), f"x_{g}"))
+            # rows are matched BY POSITION (the id column enters as plain values): a label-aligned
+            # grouping would accept a varying column whose Series carries permuted labels
+            key = ("all", ("eq", ("group_transform", f"x_{g}", ("values", f"{g}_id"), "max"), f"x_{g}"))
             modes = {key: const}
             data = {f"{g}_id": S(f"{g}_id", modes, log), f"x_{g}": S(f"x_{g}", modes, log), "y": S("y", modes, log)}
             r = run(interface._fail_if_group_variables_not_constant_within_groups, data)
@@ -193,6 +195,25 @@ def faults(pop, env, rng_seed=0):
                 d[c] = d[c].astype(float) if d[c].dtype.kind == "f" else d[c]
                 d.loc[r, c] = d.loc[r, c] + 1
             out.append((f"household-level input {c} varies within the household (row {r})", d))
+    # the same fault handed over as a dict of Series whose faulty column carries permuted index labels:
+    # rows are simulated by position, so the check must not be fooled by label alignment
+    hhs = [g for g, m in pop.groupby("hh_id").groups.items() if len(m) >= 2]
+    for c in hh_cols:
+        for h1, h2 in itertools.combinations(hhs, 2):
+            r, q = int(pop.index[pop["hh_id"] == h1][0]), int(pop.index[pop["hh_id"] == h2][0])
+            d = pop.copy()
+            if d[c].dtype == bool:
+                d.loc[d["hh_id"] == h2, c] = ~d.loc[d["hh_id"] == h1, c].iloc[0]
+                d.loc[d["hh_id"] == h1, c] = ~d.loc[d["hh_id"] == h2, c].iloc[0]
+            else:
+                d.loc[d["hh_id"] == h2, c] = d.loc[d["hh_id"] == h1, c].iloc[0] + 1
+            vals = d[c].to_numpy().copy()
+            vals[r], vals[q] = vals[q], vals[r]
+            labels = list(range(n))
+            labels[r], labels[q] = labels[q], labels[r]
+            dd = {k: d[k] for k in d.columns}
+            dd[c] = pd.Series(vals, index=labels)
+            out.append((f"household-level input {c} varies within households {h1} and {h2} (dict of Series, faulty column with swapped index labels)", dd))
     sp = pop.index[pop["p_id_ehepartner"] >= 0].tolist()
     for r in sp:
         d = pop.copy()
@@ -282,7 +303,7 @@ def run(tier="quick", seed=0, jobs=16):
             import random
 
             rng = random.Random(seed + pi)
-            single = faults(pop, e)
+            single = [x for x in faults(pop, e) if isinstance(x[1], pd.DataFrame)]
             for _ in range(6 if tier == "quick" else 40):
                 (d1, a), (d2, b) = rng.sample(single, 2)
                 data = a.copy()
